@@ -11,7 +11,8 @@ Oracle: the property itself on real solvers - run / run_from_experiment round
 trips for every scheme x homodyne/heterodyne x SME/SSE (bitwise equality),
 measurement = <M> + factor dW/dt, wiener_process = cumsum(dW), Wiener(t)
 independent of the look-up history, trace and Hermiticity of every stored
-state.
+state; partition consistency (one go == chained pieces, bitwise, every scheme);
+labelled numerical check of the strong order on refined Brownian paths.
 """
 import json
 import os
@@ -714,6 +715,252 @@ def convergence_exploration(ctx):
                            "mean_err": report[key]["mean_err"], "seed": ctx.seed})
     ctx.cov["exploration_common_limit"] = report
 
+
+# ------------------- partition consistency: no state carried across steps
+TWO_ROW = ("taylor1.5", "explicit1.5", "taylor1.5_imp")
+
+
+def partition_case(open_, method, het, tdep, nsc, pseed):
+    """One trajectory over 12 integration steps (6 output intervals of 2
+    steps) on a scripted noise stream, computed
+      A  by solver.run in one go,
+      B  by start() + step() in one go,
+      C  in two chained pieces of 6 steps on ONE solver object (start() again
+         from the reached state, the generator continuing the stream),
+      D  in three chained pieces of 4 steps, a fresh solver for every piece.
+    A trajectory is a function of (state, increments) only, so all four must
+    be bitwise equal; anything a stepper / system object caches across steps
+    (or across set_state) shows up as a difference.  The drift changes along
+    the trajectory (driven, damped oscillator; optionally an explicitly
+    time-dependent drive)."""
+    import qutip
+    N = 3
+    a = qutip.destroy(N)
+    rr = random.Random(pseed)
+    g = rr.choice([0.5, 1.0, 1.5])
+    H0 = qutip.num(N) + g * (a + a.dag())
+    H = qutip.QobjEvo([H0, [a + a.dag(), lambda t: 0.5 + t]]) if tdep else H0
+    sc = [rr.choice([0.5, 0.7, 1.0]) * a] + ([0.3 * qutip.num(N)] if nsc == 2 else [])
+    cops = [0.5 * a] if open_ else []
+    dt, per, nint = 2.0 ** -6, 2, 6
+    tl = [k * per * dt for k in range(nint + 1)]
+    cls = qutip.SMESolver if open_ else qutip.SSESolver
+    opts = {"method": method, "dt": dt, "progress_bar": "", "store_states": True,
+            "keep_runs_results": True}
+    rows = 2 if method in TWO_ROW else 1
+    n = nsc * (2 if het else 1)
+    vals = [rr.randrange(-12, 13) for _ in range((nint * per + 2) * rows * n)]
+    unit = 2.0 ** -6
+
+    def mk():
+        return FakeGen(vals, unit)
+    kw = {"c_ops": cops} if open_ else {}
+
+    def solver():
+        return cls(H, sc, heterodyne=het, options=opts, **kw)
+    psi = qutip.basis(N, 2)
+    st0 = qutip.ket2dm(psi) if open_ else psi
+
+    def chained(cuts, same):
+        gen = mk()
+        out = [st0]
+        s = solver()
+        state, prev = st0, 0
+        for cut in cuts + [nint]:
+            if not same:
+                s = solver()
+            s.start(state, tl[prev], seed=[gen])
+            for t in tl[prev + 1:cut + 1]:
+                state = s.step(t)
+                out.append(state)
+            prev = cut
+        return out
+
+    with warnings.catch_warnings():
+        warnings.simplefilter("ignore")
+        A = solver().run(st0, tl, ntraj=1, seeds=[mk()]).trajectories[0].states
+        runs = {"start+step in one go": chained([], True),
+                "two chained pieces (cut after 6 steps), same solver": chained([3], True),
+                "three chained pieces (cuts after 4 and 8 steps), fresh solvers": chained([2, 4], False)}
+    desc = {"open": open_, "method": method, "het": het, "time_dependent_H": tdep,
+            "n_sc_ops": nsc, "pseed": pseed, "H": "num(3) + %g (a + a^dag)%s" % (
+                g, " + (0.5 + t)(a + a^dag)" if tdep else ""),
+            "sc_ops": [str(c.full().tolist()) for c in sc], "c_ops": "0.5 a" if open_ else "none",
+            "state0": "fock 2", "dt": dt, "tlist": tl, "stream": vals, "stream_unit": unit}
+    bad = []
+    for name, X in runs.items():
+        d = [float(np.abs(x.full() - y.full()).max()) for x, y in zip(A, X)]
+        if len(A) != len(X) or any(v != 0.0 for v in d):
+            k = next(i for i, v in enumerate(d) if v != 0.0)
+            bad.append((name, max(d), k))
+    return desc, bad
+
+
+def partition_consistency(ctx, rng, dist):
+    combos = [(True, m) for m in ALL_SME] + [(False, m) for m in ALL_SSE]
+    reps = 1 if ctx.quick else 4
+    dd = dist.setdefault("partition", {})
+    for rep in range(reps):
+        for open_, method in combos:
+            for het in (False, True):
+                for tdep in (False, True):
+                    nsc = 1 if (rep + het + tdep) % 2 == 0 else 2
+                    pseed = rng.randrange(1 << 30)
+                    tag = "%s/%s" % ("sme" if open_ else "sse", method)
+                    dd[tag] = dd.get(tag, 0) + 1
+                    try:
+                        desc, bad = partition_case(open_, method, het, tdep, nsc, pseed)
+                    except Exception as e:
+                        ctx.violation("sode:partition:" + tag, "raises:" + type(e).__name__,
+                                      "chained evolution raised %r" % (e,),
+                                      {"kind": "partition", "open": open_, "method": method,
+                                       "het": het, "tdep": tdep, "nsc": nsc, "pseed": pseed})
+                        continue
+                    ctx.count_case(("partition", json.dumps(desc, sort_keys=True, default=str)))
+                    if bad:
+                        name, mx, k = bad[0]
+                        ctx.violation(
+                            "sode:partition:" + tag, "one-go-vs-chained-differs",
+                            "the same noise stream gives different %s trajectories: run() in one "
+                            "go vs %s differ by %.3g (first at output index %d) - state is "
+                            "carried across steps inside the integrator" % (method, name, mx, k),
+                            {"kind": "partition", "case": desc, "tdep": tdep, "nsc": nsc,
+                             "differences": [(n_, m_, k_) for n_, m_, k_ in bad]})
+
+
+# ------------------------- strong order on a refined Brownian path [NUM]
+ORDER_ADV = {"euler": 0.5, "platen": 1.0, "milstein": 1.0, "pred_corr": 0.5, "rouchon": 1.0,
+             "taylor1.5": 1.5, "explicit1.5": 1.5, "milstein_imp": 1.0, "taylor1.5_imp": 1.5}
+ORDER_MARGIN = 0.5
+PEER_FACTOR = 4.0
+
+
+def _coarse_noise(w, z, h, M):
+    """(dW, dW') pairs on steps M*h from fine increments w and fine integrals
+    z = int W ds, with the convention dz = 0.5 (dW + dW'/sqrt 3) dt of the
+    order-1.5 steppers."""
+    n, k = w.shape
+    w = w.reshape(n // M, M, k)
+    z = z.reshape(n // M, M, k)
+    before = np.cumsum(w, axis=1) - w
+    dW = w.sum(axis=1)
+    dZ = (z + h * before).sum(axis=1)
+    dt = M * h
+    out = np.empty((n // M, 2, k))
+    out[:, 0, :] = dW
+    out[:, 1, :] = np.sqrt(3) * (2 * dZ / dt - dW)
+    return out
+
+
+def strong_order_check(ctx):
+    """LABELLED NUMERICAL CHECK (not a proof obligation, [NUM]): one Brownian
+    path (increments and the matching iterated integrals, drawn at h = T/2^11)
+    is coarsened to 2^3 .. 2^7 steps and fed to every scheme (all nine SME
+    schemes, four SSE schemes) through a Wiener object holding that noise; the
+    mean (over paths) distance at T to a fine order-1.5 reference is fitted
+    against dt.  Required: observed order >= advertised - 0.5.  (Measured on
+    the unchanged tree, 16 paths, 5 seeds: worst observed - advertised =
+    -0.27; with 6 paths -0.43, which is why the margin is not the 0.35 one
+    would like and why small order losses are left to the other oracles.)
+    The SSE runs use a pure state and no unmonitored channel and are compared
+    with the density-matrix reference: same limit for both equations."""
+    import qutip
+    from qutip.solver.sode._noise import Wiener
+    N = 3
+    a = qutip.destroy(N)
+    H = qutip.num(N) + a + a.dag()
+    sc = [0.7 * a]
+    T, nf = 0.5, 2 ** 11
+    h = T / nf
+    levels = [2 ** k for k in (3, 4, 5, 6, 7)]
+    P = 16 if ctx.quick else 40
+    gen = np.random.default_rng(7000 + ctx.seed)
+    psi = qutip.basis(N, 2)
+
+    def run_path(cls, method, cops, state, noise, dt):
+        kw = {"c_ops": cops} if cls is qutip.SMESolver else {}
+        s = cls(H, sc, heterodyne=False, options={"method": method, "dt": dt,
+                                                   "progress_bar": ""}, **kw)
+        nz = noise if method in TWO_ROW else noise[:, :1, :]
+        w = Wiener(0., dt, None, nz.shape[1:])
+        w.noise = np.ascontiguousarray(nz)
+        s._integrator.set_state(0., s._prepare_state(state), w)
+        st = s._restore_state(s._integrator.integrate(T)[1], copy=True).full()
+        if st.shape[1] == 1:
+            st = st @ st.conj().T / np.vdot(st, st).real
+        return st
+
+    errs = {}
+    with warnings.catch_warnings():
+        warnings.simplefilter("ignore")
+        for p in range(P):
+            w = gen.normal(0, np.sqrt(h), size=(nf, 1))
+            u = gen.normal(0, np.sqrt(h), size=(nf, 1))
+            z = 0.5 * h * (w + u / np.sqrt(3))
+            for name, cls, cops, ms in (
+                    ("sme", qutip.SMESolver, [0.5 * a], ALL_SME),
+                    ("sse", qutip.SSESolver, [], ALL_SSE)):
+                fine = _coarse_noise(w, z, h, 1)
+                refs = [run_path(qutip.SMESolver, m, cops, qutip.ket2dm(psi), fine, h)
+                        for m in ("taylor1.5_imp", "explicit1.5")]
+                ref = refs[0]
+                if np.abs(refs[0] - refs[1]).max() > 1e-3:
+                    # the two fine references disagree: a third one decides
+                    # (one broken scheme must not spoil the reference)
+                    r3 = run_path(qutip.SMESolver, "taylor1.5", cops, qutip.ket2dm(psi), fine, h)
+                    if np.abs(r3 - refs[1]).max() < np.abs(r3 - refs[0]).max():
+                        ref = refs[1]
+                for m in ms:
+                    for i, n in enumerate(levels):
+                        out = run_path(cls, m, cops, qutip.ket2dm(psi) if name == "sme" else psi,
+                                       _coarse_noise(w, z, h, nf // n), T / n)
+                        errs.setdefault((name, m), np.zeros(len(levels)))[i] += \
+                            np.linalg.norm(out - ref) / P
+                        ctx.count_case(("order", ctx.seed, p, name, m, n))
+    dts = T / np.array(levels)
+    report = {}
+    for (name, m), e in errs.items():
+        order = float(np.polyfit(np.log(dts), np.log(e), 1)[0])
+        key = "%s/%s" % (name, m)
+        report[key] = {"mean_err": ["%.2e" % x for x in e], "observed_order": round(order, 2),
+                       "advertised_order": ORDER_ADV[m]}
+        if not order >= ORDER_ADV[m] - ORDER_MARGIN:
+            ctx.violation("sode:order:" + key, "strong-order-below-advertised",
+                          "%s on one Brownian path refined from %d to %d steps: observed strong "
+                          "order %.2f, advertised %.1f (mean errors %s)"
+                          % (key, levels[0], levels[-1], order, ORDER_ADV[m],
+                             report[key]["mean_err"]),
+                          {"kind": "order", "scheme": key, "paths": P, "seed": ctx.seed,
+                           "levels": levels, "mean_err": report[key]["mean_err"],
+                           "observed_order": order})
+    # peer comparison: schemes advertised with the same order (groups of at
+    # least three) must reach comparable accuracy at the finest level; one that
+    # is PEER_FACTOR times worse than the median of its group has lost order
+    # even if its fitted slope is still inside the margin above.  (Unchanged
+    # tree, 10 seeds x 16 paths: worst ratio to the group median 1.72.)
+    peers = {}
+    for (name, m), e in errs.items():
+        peers.setdefault((name, ORDER_ADV[m]), []).append((m, float(e[-1])))
+    for (name, adv), lst in peers.items():
+        if len(lst) < 3:
+            continue
+        med = float(np.median([x for _, x in lst]))
+        for m, x in lst:
+            key = "%s/%s" % (name, m)
+            report[key]["finest_err_over_group_median"] = round(x / med, 2)
+            if x > PEER_FACTOR * med:
+                ctx.violation("sode:order:" + key, "less-accurate-than-same-order-schemes",
+                              "%s at %d steps is %.1f times less accurate than the median of the "
+                              "schemes advertised with the same strong order %.1f (%s)"
+                              % (key, levels[-1], x / med, adv,
+                                 {mm: "%.2e" % xx for mm, xx in lst}),
+                              {"kind": "order", "scheme": key, "paths": P, "seed": ctx.seed,
+                               "group": {mm: xx for mm, xx in lst}})
+    ctx.cov["numerical_check_strong_order"] = {
+        "rule": "observed order >= advertised - %.2f; finest-level error <= %g x median of the "
+                "schemes with the same advertised order; %d paths" % (ORDER_MARGIN, PEER_FACTOR, P),
+        "schemes": report}
+
 # ----------------------------------------------------------------------- run
 def report_wiener_call(ctx, case, r, model_agrees):
     """Classify a failure of W(t): the known defect is the one the faithful
@@ -996,6 +1243,12 @@ def run(ctx):
                       "'measurement_noise') for the schemes %s" % ms,
                       {"methods": ms, "example": type_errors[ms[0]], "kind": "typeerror"})
     skipped_step_case(ctx)
+    partition_consistency(ctx, rng, dist)
+    try:
+        strong_order_check(ctx)
+    except Exception as e:
+        ctx.violation("sode:order", "raises:" + type(e).__name__,
+                      "strong-order check raised %r" % (e,), {"kind": "order"})
     try:
         convergence_exploration(ctx)
     except Exception as e:
@@ -1107,5 +1360,16 @@ def replay(ctx, payload):
                           {"methods": sorted(ms), "kind": kind})
     elif kind == "convergence":
         convergence_exploration(ctx)
+    elif kind == "order":
+        strong_order_check(ctx)
+    elif kind == "partition":
+        c = d.get("case") or d
+        desc, bad = partition_case(c["open"], c["method"], c["het"],
+                                   d.get("tdep", c.get("time_dependent_H", False)),
+                                   d.get("nsc", c.get("n_sc_ops", 1)), c["pseed"])
+        if bad:
+            ctx.violation(payload["site"], payload["signature"],
+                          "one go vs %s differ by %.3g" % (bad[0][0], bad[0][1]),
+                          {"kind": kind, "case": desc})
     elif "noise_shapes" in d:
         skipped_step_case(ctx)
